@@ -1517,6 +1517,13 @@ class Interp(object):
                 if qual in self.inline:
                     fn, mod, cls = self.find_method(c.cls, name, fr)
                     return self.call_funcdef(fn, mod, cls, recv, args, kwargs, None, '%s.%s' % (cls, name))
+                # a helper of the same class that has neither contract nor inline permission (e.g. freshly extracted by a
+                # refactoring): its real body is executed in place - sound, it is the code that runs; loops inside still need contracts
+                if self.hooks.get('auto_inline', True) and fr is not None and getattr(fr, 'mod', None) is not None:
+                    ci_ = fr.mod.classes.get(c.cls)
+                    if ci_ is not None and name in ci_.methods and self.depth < 12:
+                        self.ctx.notes.append('auto-inlined %s' % qual)
+                        return self.call_funcdef(ci_.methods[name], fr.mod, ci_.name, recv, args, kwargs, None, qual)
                 # inherited method: look through base classes registered under their own name
                 found = self.find_method(c.cls, name, fr, soft=True)
                 if found is not None:
